@@ -64,9 +64,16 @@ class C16(Spec):
             "Content-Type": [b"text/html", b"application/json; charset=utf-8", b"text/plain; q=0.5", b"bogus"],
             "Content-Length": [b"0", b"42", b"18446744073709551615", b"18446744073709551616", b" 7", b"+7", b"x"],
         }
+        def message_safe(v):
+            # what the header step hands over unchanged: no CR/LF/NUL, no leading blank (skipped), not empty
+            return len(v) > 0 and not any(c in v for c in b"\r\n\x00") and v[0:1] != b" "
         for name, vals in texts.items():
             for v in vals:
                 cases.append("T %s %s" % (pv.hexs(name), pv.hexs(v)))
+                # the same through the request parser (the value sits unterminated in the read buffer);
+                # Content-Length and Transfer-Encoding also frame the body there and are left to C01/C14
+                if message_safe(v) and name not in ("Content-Length", "Transfer-Encoding"):
+                    cases.append("TM %s %s" % (pv.hexs(name), pv.hexs(v)))
         for name in IDENT:
             for _ in range(20 if tier == "quick" else 300):
                 v = bytes(rng.choice(b"abcXYZ019 ,;=:/()*\"'-_.") for _ in range(rng.randint(0, 20)))
@@ -140,7 +147,7 @@ class C16(Spec):
                 return "Server written twice gives different text"
             if o[4:] != t[1:]:
                 return "Server built from tokens %s is written %r and read back as tokens %s" % ([pv.unhex(x) for x in t[1:]], pv.unhex(o[1]), [pv.unhex(x) for x in o[4:]])
-        elif t[0] == "T":
+        elif t[0] in ("T", "TM"):
             if o[1] == "err2":
                 return "header %s: the text written for value %r does not parse: %r" % (pv.unhex(t[1]), pv.unhex(t[2]), pv.unhex(o[2]))
             if o[1] == "ok" and o[2] != o[3]:
@@ -155,6 +162,29 @@ class C16(Spec):
                 if g != want:
                     return "lookup of %r: expected %r (first occurrence), got %r" % (pv.unhex(nm), want, g)
         return None
+
+    def post(self, cases, impl, model):
+        # a typed header must mean the same whether its value comes terminated (Header::parse) or sits in a
+        # read buffer (the request parser): compare the two paths of the implementation with each other
+        direct = {}
+        for c, i in zip(cases, impl):
+            t = c.split()
+            if t[0] == "T" and len(t) == 3:
+                direct[(t[1], t[2])] = i
+        out = []
+        for c, i in zip(cases, impl):
+            t = c.split()
+            if t[0] == "TM" and (t[1], t[2]) in direct and direct[(t[1], t[2])] != i and not i.startswith(("CRASH", "HANG", "SKIPPED")):
+                out.append((c, i, "header %s with value %r: parsed out of a request it is written back as %s, parsed from a string as %s"
+                            % (pv.unhex(t[1]).decode(), pv.unhex(t[2]), self.show(i), self.show(direct[(t[1], t[2])]))))
+        return out
+
+    @staticmethod
+    def show(line):
+        o = line.split()
+        if len(o) >= 3 and o[1] == "ok":
+            return repr(pv.unhex(o[2]))
+        return " ".join(o[1:])
 
     def nontrivial(self, case, impl):
         return len(case.split()) > 1
